@@ -30,6 +30,33 @@ Definition if_node := Node "If" true None false [] [true] [] [cast_node].
 Definition if_info := NInfo ["tensor(bool)"] [Some "tensor(float)"] [("then_branch", 5); ("else_branch", 5)].
 Definition ex_quiet_model : model := Model (Some 18) None [cast_node; if_node] [Func (Some 18) None [cast_node]].
 
+(* ---------------------------------------------------------------- typing of the nodes the adapters build *)
+Definition i64 : string := "tensor(int64)".
+(* the type set of input position i of op under the schema in force at opset v *)
+Definition in_types (op : string) (v : Z) (i : nat) : list string :=
+  match hist_of schema_table op with
+  | Some h => match sch_at h v with
+              | Some sc => match nth_error (sc_ins sc) i with Some f => fm_types f | None => [] end
+              | None => [] end
+  | None => []
+  end.
+(* every node of the list, typed by the corresponding info, is valid under the schema in force at opset v *)
+Definition valid_list (v : Z) (ns : list node) (infos : list ninfo) : bool :=
+  Nat.eqb (List.length ns) (List.length infos) &&
+  forallb (fun p => valid_at schema_table (n_op (fst p)) v (vnode_of (fst p) (snd p))) (combine ns infos).
+Definition const_info := NInfo [] [Some i64] [].
+(* DFT 19 -> 20: [Constant(value_int) -> int64 scalar; DFT(x : t0, dft_length : t1 (if present), axis : int64) : t0] *)
+Definition dft_infos (t0 t1 : string) : list ninfo := [const_info; NInfo [t0; t1; i64] [Some t0] []].
+(* GridSample 19 -> 20: same inputs and output, mode renamed *)
+Definition gs_infos (tx tg : string) : list ninfo := [NInfo [tx; tg] [Some tx] []].
+(* GroupNormalization 20 -> 21 (static channel dimension): three int64 Constants, Reshape/Expand/Reshape of scale and of
+   bias (type T, shape operand int64), GroupNormalization(x, scale', bias') *)
+Definition gn_infos (T : string) : list ninfo :=
+  let sh := NInfo [T; i64] [Some T] [] in
+  [const_info; const_info; const_info; sh; sh; sh; sh; sh; sh; NInfo [T; T; T] [Some T] []].
+Definition ops_quiet_clear (v t : Z) (ns : list node) : bool :=
+  forallb (fun m => q_from v (n_op m) && clear_of schema_exceptions (n_op m) v t) ns.
+
 (* a function written for opset 19 (DFT with the axis attribute) inside an opset-20 model *)
 Definition dft_info := NInfo ["tensor(float)"] [Some "tensor(float)"] [].
 Definition w_func_opset : model := Model (Some 20) None [relu] [Func (Some 19) None [dft_axis1]].
